@@ -168,6 +168,46 @@ def run(ctx):
         if why:
             obad.append((i, fl, why, r, isc))
     ctx.cov["oracle"]["sasl_decoding_of_impl_wire"] = {"cases": len(impl_scs), "failures": len(obad)}
+    # credentials given in a connection URL: the user-info part is percent-decoded, nothing else (RFC 3986)
+    from smtp import step, events_R
+    import urllib.parse
+    raw_creds = [(b"user", b"pw"), (b"robot+billing@example.com", b"s3cr+t"), (b"a b", b"p w"), (b"u%x", b"p%41"), (b"u:v", b"p@q/r?s#t"), ("é".encode(), "pä ss+".encode()), (b"+", b"+"), (b"a=b&c", b"~._-")]
+    url_scs, url_meta = [], []
+    for user, pw in raw_creds:
+        for enc_plus in (False, True):
+            q = lambda x: urllib.parse.quote(x, safe="+" if not enc_plus else "")
+            for mech, adv in (("PLAIN", b"AUTH PLAIN LOGIN"), ("LOGIN", b"AUTH LOGIN")):
+                for fl in ("sync", "tokio"):
+                    script = [step("none", b"220 hi\r\n"), step("line", b"250-srv\r\n250 " + adv + b"\r\n")]
+                    if mech == "LOGIN":
+                        script += [step("line", b"334 VXNlcm5hbWU6\r\n"), step("line", b"334 UGFzc3dvcmQ6\r\n"), step("line", b"235 ok\r\n")]
+                    else:
+                        script += [step("line", b"235 ok\r\n")]
+                    script += [step("line", b"250 ok\r\n"), step("line", b"250 ok\r\n"), step("line", b"354 go\r\n"), step("data", b"250 queued\r\n"), step("line", b"221 bye\r\n")]
+                    url_scs.append({"id": 500000 + len(url_scs), "flavor": fl, "timeout_ms": 3000, "servers": [script],
+                                    "ops": [{"op": "transport", "url": "smtp://%s:%s@127.0.0.1:{port}" % (q(user), q(pw))},
+                                            {"op": "tsend", "from": hx(b"a@x.org"), "to": [hx(b"b@y.org")], "msg": hx(b"x")}, {"op": "tdrop"}]})
+                    url_meta.append((user, pw, mech, fl))
+    ures = run_scenarios(url_scs)
+    ubad = []
+    for (user, pw, mech, fl), r, sc in zip(url_meta, ures, url_scs):
+        ctx.count()
+        srv = (r.get("servers") or [None])[0]
+        Rs = events_R(srv) if srv else []
+        try:
+            if mech == "PLAIN":
+                got = base64.b64decode(Rs[1].split(b" ")[2].strip())
+                ok = got == b"\0" + user + b"\0" + pw
+            else:
+                got = (base64.b64decode(Rs[2].strip()), base64.b64decode(Rs[3].strip()))
+                ok = got == (user, pw)
+        except Exception as e:
+            got, ok = "no AUTH exchange: %s / %s" % (e, str(r.get("results"))[:200]), False
+        if not ok:
+            ubad.append((sc, "credentials from the URL %s sent as %r, expected user %r password %r (%s, %s)" % (sc["ops"][0]["url"], got, user, pw, mech, fl)))
+    ctx.cov["oracle"]["url_credentials_on_impl_wire"] = {"cases": len(url_scs), "failures": len(ubad)}
+    if ubad:
+        ctx.violation({"kind": "oracle", "entry": "from_url credentials", "what": ubad[0][1], "scenario": ubad[0][0], "failures": len(ubad)})
     # pure: Mechanism::response and base64
     lines = []
     for user, pw in CREDS:
